@@ -83,3 +83,62 @@ theorem index_finds_token (text : List Char) (toks : List Token) (h : lex text =
   rfl
 
 end Spl.CursorLemmas
+
+namespace Spl.CursorLemmas
+open Spl Spl.Feat
+
+/-- whatever index is asked for, `as_position` answers with the position of a character boundary of the text (the
+    index itself if it is one that the walk reaches, otherwise the end of the text) -/
+theorem asPositionGo_boundary : ∀ (t : List Char) (i idx l c : Nat),
+    ∃ a b, t = a ++ b ∧ asPositionGo t i idx l c = asPositionGo t i (i + utf8Len a) l c
+  | [], i, idx, l, c => ⟨[], [], rfl, by simp [asPositionGo]⟩
+  | ch :: rest, i, idx, l, c => by
+    by_cases h : (i == idx) = true
+    · refine ⟨[], ch :: rest, rfl, ?_⟩
+      simp [asPositionGo, h]
+    · have hsz := utf8Size_pos ch
+      have key : ∀ l' c', ∃ a b, ch :: rest = a ++ b ∧
+          asPositionGo rest (i + ch.utf8Size) idx l' c' = asPositionGo rest (i + ch.utf8Size) (i + utf8Len a) l' c' ∧
+          (i == i + utf8Len a) = false := by
+        intro l' c'
+        obtain ⟨a', b', e, he⟩ := asPositionGo_boundary rest (i + ch.utf8Size) idx l' c'
+        refine ⟨ch :: a', b', by rw [e]; rfl, ?_, ?_⟩
+        · rw [he]; simp only [utf8Len_cons]; congr 1; omega
+        · simp only [utf8Len_cons, beq_eq_false_iff_ne, ne_eq]; omega
+      simp only [asPositionGo, h, Bool.false_eq_true, if_false]
+      split
+      · obtain ⟨a, b, e, he, hne⟩ := key (l + 1) 0
+        refine ⟨a, b, e, ?_⟩
+        rw [he]
+        cases a with
+        | nil => simp at hne
+        | cons x a' =>
+          simp only [List.cons_append, List.cons.injEq] at e
+          obtain ⟨rfl, _⟩ := e
+          simp only [asPositionGo, hne, Bool.false_eq_true, if_false]
+      · split
+        · obtain ⟨a, b, e, he, hne⟩ := key l (c + utf16Len ch)
+          refine ⟨a, b, e, ?_⟩
+          rw [he]
+          cases a with
+          | nil => simp at hne
+          | cons x a' =>
+            simp only [List.cons_append, List.cons.injEq] at e
+            obtain ⟨rfl, _⟩ := e
+            simp only [asPositionGo, hne, Bool.false_eq_true, if_false]
+        · obtain ⟨a, b, e, he, hne⟩ := key l c
+          refine ⟨a, b, e, ?_⟩
+          rw [he]
+          cases a with
+          | nil => simp at hne
+          | cons x a' =>
+            simp only [List.cons_append, List.cons.injEq] at e
+            obtain ⟨rfl, _⟩ := e
+            simp only [asPositionGo, hne, Bool.false_eq_true, if_false]
+
+theorem asPosition_boundary (idx : Nat) (text : List Char) :
+    ∃ a b, text = a ++ b ∧ asPosition idx text = asPosition (utf8Len a) text := by
+  obtain ⟨a, b, e, h⟩ := asPositionGo_boundary text 0 idx 0 0
+  exact ⟨a, b, e, by simpa [asPosition] using h⟩
+
+end Spl.CursorLemmas
